@@ -2,6 +2,7 @@ package main
 
 import (
 	"fmt"
+	"os"
 	"time"
 )
 
@@ -102,10 +103,17 @@ func init() {
 			}
 		}
 		c.Res.Extra = map[string]interface{}{"vendor_attributes": n}
-		if n < 100 {
+		stage2 := os.Getenv("VERIF_SYNTH_STAGE2") != ""
+		if n < 100 && !stage2 {
 			c.Fail("model", "registry", "registry", "", fmt.Sprintf("only %d vendor attributes found", n), ">= 100", "")
 		}
 		c.Flush()
+		if stage2 {
+			return
+		}
+		if c.Thorough() {
+			runSynthetic(c, r, 12, "C14")
+		}
 		c.RequireTags("shared-vsa", "repeated-in-vsa", "only-own", "other-vendor", "overrun", "len0", "len2", "trailing", "base-attr", "vsa-too-short")
 	}
 }
